@@ -5,11 +5,19 @@
        a list of structs whose elements hold that value as sole field;
      - capabilities: by identity (same client, or same table index in the same message);
      - null only to null; every other combination is unequal.
-   Decisions where the comment is silent (they follow the encoding specification):
-     - List(Bool) has no struct view (the spec excludes it from the list-upgrade rule), so a
-       bit list is equal only to a bit list with the same bits;
-     - two non-struct lists of different element kinds (void / 1 / 2 / 4 / 8 bytes / pointer)
-       are different types and unequal, even when empty.
+   Decisions beyond the comment:
+     - where it is silent: List(Bool) has no struct view (the encoding specification excludes it
+       from the list-upgrade rule), so a bit list is equal only to a bit list with the same bits
+       (an independent decision: it exposed defect F01);
+     - where its literal reading is OVERRIDDEN: "two lists are equal iff same length and
+       corresponding elements equal" would make two non-struct lists of different element kinds
+       (void / 1 / 2 / 4 / 8 bytes / pointer) equal whenever they are empty or element-wise equal
+       as numbers.  Here they are UNEQUAL, even when empty: they are values of different schema
+       types, and this is what the code does (pointer.go: l1.size != l2.size, upstream).  This
+       rule, the "(or of pointers)" part of the upgrade rule, and the table-bound condition in
+       capability identity (cv_intab: an index outside the table is the nil client) are taken
+       from the code / encoding specification, not from the comment -- on these three points the
+       specification cannot disagree with the implementation by construction.
    No proofs in this file (see ValueEqProofs.v). *)
 From CV Require Export Core.ReadOps Core.Builder.
 Open Scope Z_scope.
